@@ -63,6 +63,12 @@ T["C09"] = dict(
     technique="TLA+ exact-arithmetic specification + TLC exhaustive check; three-link spec->code replay",
     ref="6. C09")
 
+T["C08"] = dict(
+    text="TLC checks spec/MC_Activations: on blocks of 1-3 (thorough 4) rules with forced degrees, all degree vectors over 5 values (NaN too for <=2 rules), all-on / one-disabled / one-unloaded patterns and every parameter value of the 7 methods, the loops of Engine.ActivateBlock (shaped like activation.py: counters, heaps keyed by (degree, index), two-pass Proportional) equal a declarative selection written from the property (ranks, ties by insertion order); canary with reversed tie-break must fail. All ~107k cases are replayed on one long-lived real rule block: activation_degree, triggered, fuzzy output in firing order; batches must be rejected by the six vector-incapable methods.",
+    note="Degrees forced through Ramp(0,1) inputs; blocks up to 4 rules exhaustively.",
+    technique="TLA+ step machine vs declarative definition checked by TLC; spec->code replay",
+    ref="6. C08")
+
 PLANNED = {}
 
 def main():
